@@ -57,7 +57,7 @@ BKEYS = ['stdout', 'stdout_color', 'stderr', 'stderr_color', 'platform_std_log',
 BDEF = {'stdout': False, 'stdout_color': False, 'stderr': False, 'stderr_color': False, 'platform_std_log': True,
         'rotate_on_startup': True, 'rotate_daily': False, 'compress_old_files': False, 'async': False}
 TYPES = 'dwci'
-CATS = ['default', 'net', 'app', 'app.ui', 'app.db', 'x']
+CATS = ['default', 'net', 'app', 'app.ui', 'app.db', 'x', 'app.u.ui.list', 'aa', 'nenet']
 TEXTS = ['hello', 'Ünï ©', 'zażółć gęślą', 'smile 😀 end', 'keep me', 'Alpha 1', 'password=1', 'z', '', 'a b c', 'tail z', 'Amid keep', 'café 日本', 'line1\nline2',
          '\x1b[31mred\x1b[0m', 'x\x1b[1;38;5;88my', '\x1b[', '\x1b[3\x1b[0m1m', '100% %{message}', ' lead', 'semi;colon=1']
 ESC_FRAGS = ['\x1b[0m', '\x1b[31m', '\x1b[1;38;5;88m', '\x1b[', '\x1b', '[0m', 'm', '1;', 'x', '\x1b[;m', '\x1b[3', '\x1b[m',
@@ -129,8 +129,11 @@ def gen_msgs(rng, n, esc=False, same_day=False):
 
 
 def gen_rule(rng):
-    wild = rng.random() < 0.5
-    name = rng.choice(['', 'app.', 'app', 'n', 'net']) if wild else rng.choice(CATS + ['nomatch'])
+    # wild: 0 = exact name, 1 = "name*" (starts with), 2 = "*name*" (contains; the literal behind the leading
+    # wildcard makes the library's matcher backtrack: 'app.u.ui.list' / '.ui.', 'aa' / 'a', 'nenet' / 'net')
+    wild = rng.choice([0, 0, 0, 1, 1, 1, 2, 2])
+    name = (rng.choice(['', 'app.', 'app', 'n', 'net']) if wild == 1 else
+            rng.choice(['.ui.', '.ui.', 'net', 'net', 'a', 'pp', 'et', 'ui.l', 'aa', '']) if wild == 2 else rng.choice(CATS + ['nomatch']))
     return {'name': name, 'wild': wild, 'type': rng.choice(['-', '-', 'd', 'i', 'w', 'c']), 'en': rng.random() < 0.5}
 
 
@@ -174,6 +177,17 @@ def gen_ini_case(rng, i, subset=None):
     c['tty'] = rng.choice([(0, 0), (0, 0), (1, 1), (1, 0), (0, 1)])
     c['codec'] = rng.choice(['utf8', 'utf8', 'utf8', 'latin1'])
     c['msgs'] = gen_msgs(rng, rng.randint(1, 10), esc=rng.random() < 0.15, same_day=bool(c['b']['async']))
+    k2 = [r for r in c['rules'] if r['wild'] == 2 and r['name']]
+    if k2 and rng.random() < 0.7:
+        # aim messages at a "*name*" rule: categories that contain the name, the ones where a proper prefix of the name
+        # sits right before its occurrence ('app.u.ui.list' / '.ui.', 'nenet' / 'net') first (the matcher has to backtrack)
+        r = rng.choice(k2)
+        hot = [x for x in ('app.u.ui.list', 'nenet', 'aa') if r['name'] in x and x != r['name']] or [x for x in CATS if r['name'] in x]
+        for m in rng.sample(c['msgs'], min(len(c['msgs']), rng.randint(1, 2))):
+            if hot:
+                m['cat'] = rng.choice(hot)
+                if r['type'] != '-' and rng.random() < 0.7:
+                    m['t'] = r['type']
     gen_pre(rng, c)
     if c['rx'] and rng.random() < 0.6:
         # aim the literal at one of the messages so that the filter passes some and rejects others
@@ -265,7 +279,7 @@ def msg_tokens(ms):
 def ini_line(c):
     t = ['E%d%d' % tuple(c['tty']), 'R%d' % len(c['rules'])]
     for r in c['rules']:
-        t += [hx16(r['name']), '1' if r['wild'] else '0', r['type'], '1' if r['en'] else '0']
+        t += [hx16(r['name']), str(int(r['wild'])), r['type'], '1' if r['en'] else '0']
     t.append('X-' if c['rx'] is None else 'X%s:%s' % (c['rx'][0], hx16(c['rx'][1])))
     t.append('P%d' % len(c['pattern']))
     for p in c['pattern']:
@@ -694,10 +708,10 @@ def gen_scenario(rng, i):
     p1 = gen_ini_case(rng, 500000 + i, subset=set(sub))
     cats = ['net', 'app.ui', 'app.db', 'x']
     p1['rules'] = [gen_rule(rng) for _ in range(rng.randint(0, 2))] + \
-                  [{'name': rng.choice(['net', 'app.', 'app.ui', '']), 'wild': rng.random() < 0.6, 'type': rng.choice(['-', 'd', 'i', 'w']), 'en': False}]
+                  [{'name': rng.choice(['net', 'app.', 'app.ui', '']), 'wild': int(rng.random() < 0.6), 'type': rng.choice(['-', 'd', 'i', 'w']), 'en': False}]
     for r in p1['rules']:
         if not r['wild'] and not r['name']:
-            r['wild'] = True
+            r['wild'] = 1
     p1.update(tty=(0, 0), codec='utf8', pre='', end='exec', size=None, count=None)
     p1['keys'] = [k for k in p1['keys'] if k not in ('max_file_size', 'max_file_count')]
     t = 1700000000 + rng.randrange(10 ** 6)
@@ -833,7 +847,7 @@ def _py_pass(rules, m):
     """generator statistics only: does the rule list let the message through (same few-line matcher as the model)"""
     en = True
     for r in rules:
-        hit = (m['cat'].startswith(r['name']) if r['wild'] else m['cat'] == r['name']) and r['type'] in ('-', m['t'])
+        hit = ((r['name'] in m['cat']) if r['wild'] == 2 else m['cat'].startswith(r['name']) if r['wild'] else m['cat'] == r['name']) and r['type'] in ('-', m['t'])
         if hit:
             en = r['en']
     return en
